@@ -241,9 +241,23 @@ func TestVerif_C05(t *testing.T) {
 		// ---- messages ----
 		var msgTerms, obsTerms []string
 		lastConn := map[int]string{}
-		for mi := 0; mi < 1+r.intn(3); mi++ {
+		// an override message first and an ordinary one after it: what the first one opened without
+		// any policy must not serve the second
+		overrideFirst := allowOverride && nMX == 2 && r.chance(45)
+		nMsg := 1 + r.intn(3)
+		if overrideFirst && nMsg < 2 {
+			nMsg = 2
+		}
+		for mi := 0; mi < nMsg; mi++ {
 			reqtls, override, quarantine := r.chance(25), r.chance(30), r.chance(6)
 			dataOK := !r.chance(12)
+			if overrideFirst {
+				if mi == 0 {
+					reqtls, override, quarantine, dataOK = false, true, false, true
+				} else if mi == 1 {
+					reqtls, override, quarantine = false, false, false
+				}
+			}
 			meta := &module.MsgMetadata{ID: fmt.Sprintf("v%d", mi), SMTPOpts: smtp.MailOptions{RequireTLS: reqtls},
 				TLSRequireOverride: override, Quarantine: quarantine}
 			before := make([]int, nMX)
